@@ -16,7 +16,9 @@
 //! `RestartNeeded(cause)`; every `RestartNeeded` seen in one history carries the same cause, and the
 //! cause is one the history injected; once disconnected every new operation fails at once with that
 //! cause; by `end` nothing is pending, every stream has ended and the transport was closed; a
-//! definite fault always ends in a disconnect.  The wall-clock clause ("never longer than the
+//! definite fault always ends in a disconnect; a well-formed response bearing the id of a waiting call
+//! or subscribe, read on a live connection, resolves that future in the same line (or the client
+//! disconnects) — an answered future never stays pending on a healthy connection.  The wall-clock clause ("never longer than the
 //! request timeout") is a real-time **test** (`rt …` lines, short `request_timeout`).
 use jrpc_harness::client_faults::*;
 use jrpc_harness::client_mock::{MockErr, split_cases};
